@@ -570,6 +570,28 @@ func versionOwnsLevels(c *eng.Ctx) {
 		}
 	}
 	c.Check(muts >= 3, "mutators-found", nil, nil, "AddFile, AddFiles and DeleteFile edit a level", fmt.Sprintf("found %d", muts))
+
+	// F40: the same for the nested containers of a version: a map stored INSIDE one of the new version's maps (reference marks:
+	// store -> family -> files) is edited in place by the edit log that is applied to the clone, so Clone must create it; taking
+	// over the base version's inner map lets a commit change what an older snapshot (and a concurrent reader) sees
+	cl := c.Fn("kv/version.version.Clone")
+	nm := 0
+	for _, b := range eng.BlocksT(cl) {
+		for _, in := range b.Instrs {
+			mu, ok := in.(*ssa.MapUpdate)
+			if !ok {
+				continue
+			}
+			if _, inner := mu.Value.Type().Underlying().(*types.Map); !inner {
+				continue
+			}
+			nm++
+			_, fresh := eng.Unwrap(mu.Value).(*ssa.MakeMap)
+			c.Check(fresh, fmt.Sprintf("clone-owns-inner-map[%d]", nm), in, cl,
+				"a map nested in the version's state is created by Clone, not taken over from the base version", "stores "+p.Desc(mu.Value))
+		}
+	}
+	c.Check(nm >= 1, "inner-maps-found", nil, cl, "Clone copies the nested reference map", fmt.Sprintf("found %d", nm))
 }
 
 // createFamilyOnce (F36): the claim a family holds on the table it is writing (pendingOutputs), its compacting / rolluping flags and
